@@ -11,6 +11,8 @@ import (
 
 	"cqlsim/world"
 
+	"github.com/datastax/cql-proxy/proxy"
+
 	"github.com/datastax/go-cassandra-native-protocol/frame"
 	"github.com/datastax/go-cassandra-native-protocol/message"
 	"github.com/datastax/go-cassandra-native-protocol/primitive"
@@ -52,6 +54,14 @@ func c17(e *Env) {
 	}
 	cfg.ReconnBase = 100 * time.Millisecond
 	cfg.ReconnMax = 2 * time.Second
+	if c.Choose("c17override", 3) == 2 {
+		// a non-default configuration: writes at these levels are re-encoded by the proxy, so hostile
+		// frames also meet the code that decodes and rebuilds requests
+		cfg.TweakProxy = func(pc *proxy.Config) {
+			proxy.SimSetWriteConsistencyOverride(pc, []primitive.ConsistencyLevel{primitive.ConsistencyLevelAny, primitive.ConsistencyLevelOne, primitive.ConsistencyLevelTwo, primitive.ConsistencyLevelQuorum, primitive.ConsistencyLevelLocalOne, primitive.ConsistencyLevelSerial}, primitive.ConsistencyLevelLocalQuorum)
+		}
+		e.Res.Stats["probe.c17.write_consistency_override_configured"]++
+	}
 	if c.Choose("tls-listener", 8) == 7 {
 		c17TLS(e, cfg)
 		return
@@ -354,7 +364,52 @@ func c17(e *Env) {
 			continue
 		}
 		// byte-level mutation
-		switch c.Choose("mut", 8) {
+		switch c.Choose("mut", 10) {
+		case 9: // a v3 frame with the CUSTOM_PAYLOAD flag (defined from v4 on) and a payload in front of a write
+			fr4 := frame.NewFrame(primitive.ProtocolVersion4, stream, world.QueryMsg("INSERT INTO ks.t (k, v) VALUES ('"+tok+"', 1)", []primitive.ConsistencyLevel{primitive.ConsistencyLevelAny, primitive.ConsistencyLevelOne, primitive.ConsistencyLevelLocalQuorum}[c.Choose("v3payload-cl", 3)]))
+			fr4.SetCustomPayload(map[string][]byte{"k": []byte("v")})
+			if b := safeEncode(fr4); b != nil {
+				raw = b
+				raw[0] = byte(primitive.ProtocolVersion3)
+				e.Res.Stats["probe.c17.v3_frame_with_custom_payload_flag"]++
+			}
+		case 8: // a frame in the response direction whose body announces hostile counts
+			// (a client has no business sending responses; what the proxy does to decode them anyway
+			// must survive lengths that are negative or absurd)
+			hostile := []uint32{0xffffffff, 0x80000000, 0x00100000, 0xfffffffe, 0xffff0000}[c.Choose("respcount", 5)] // (negative, or large without asking for gigabytes: counts near 2^31 make the decoder allocate until the process is killed - a resource question like the declared frame lengths C17 leaves out)
+			var body []byte
+			i32 := func(v uint32) { body = append(body, byte(v>>24), byte(v>>16), byte(v>>8), byte(v)) }
+			op := byte(primitive.OpCodeResult)
+			switch c.Choose("respshape", 5) {
+			case 0: // RESULT Rows: flags 0, column count hostile
+				i32(2)
+				i32(0)
+				i32(hostile)
+			case 1: // RESULT Rows: one column (global table spec), rows count hostile
+				i32(2)
+				i32(1)
+				i32(1)
+				body = append(body, 0, 2, 'k', 's', 0, 1, 't', 0, 1, 'c', 0, 13)
+				i32(hostile)
+			case 2: // RESULT Prepared with a hostile column count
+				i32(4)
+				body = append(body, 0, 2, 'i', 'd')
+				i32(0)
+				i32(hostile)
+				i32(0)
+			case 3: // ERROR read failure with a hostile reason map (v5 / DSEv2 layouts read a map)
+				op = byte(primitive.OpCodeError)
+				i32(0x1300)
+				body = append(body, 0, 1, 'x', 0, 1)
+				i32(1)
+				i32(1)
+				i32(hostile)
+			case 4: // SUPPORTED with a hostile multimap length (short)
+				op = byte(primitive.OpCodeSupported)
+				body = append(body, byte(hostile>>8), byte(hostile))
+			}
+			raw = append([]byte{byte(h.Version) | 0x80, 0, byte(stream >> 8), byte(stream), op, 0, 0, 0, byte(len(body))}, body...)
+			e.Res.Stats["probe.c17.response_frame_with_hostile_counts_from_client"]++
 		case 0: // bit flips
 			for k := 0; k < 1+c.Choose("nflips", 4); k++ {
 				p := c.Choose("flipat", len(raw))
